@@ -1446,7 +1446,7 @@ func main() {
 	o.f("def skel_ServerConnClose : List String := %s\n", leanStrList(skeleton(m, m.anyFunc("ServerConn", "Close"))))
 	// --- control skeletons of the record layer
 	for _, fn := range [][2]string{{"cipherState", "Encrypt"}, {"cipherState", "Decrypt"}, {"cipherState", "rotateKey"},
-		{"cipherState", "InitializeKey"}, {"Machine", "ReadHeader"}, {"Machine", "ReadBody"}, {"Machine", "WriteMessage"}} {
+		{"cipherState", "InitializeKey"}, {"Machine", "ReadHeader"}, {"Machine", "ReadBody"}, {"Machine", "ReadMessage"}, {"Machine", "WriteMessage"}} {
 		o.f("def skel_%s_%s : List String := %s\n", fn[0], fn[1], leanStrList(skeleton(m, m.anyFunc(fn[0], fn[1]))))
 	}
 
